@@ -115,6 +115,20 @@ def check(sids):
     allr = json.load(open(rp)) if os.path.exists(rp) else {}
     allr.update(results)
     json.dump(allr, open(rp, "w"), indent=1, sort_keys=True)
+    write_table(allr)
+    return results
+
+def write_table(allr):
+    # first-contact / strengthened columns always come from the seed's own meta.json
+    for sid in list(allr):
+        mp = os.path.join(SEEDED, sid, "meta.json")
+        if not os.path.exists(mp):
+            del allr[sid]
+            continue
+        meta = json.load(open(mp))
+        allr[sid]["first_contact"] = meta.get("first_contact", "")
+        allr[sid]["strengthened"] = meta.get("strengthened", "")
+        allr[sid]["title"] = meta.get("title", "")
     with open(os.path.join(SEEDED, "RESULTS.md"), "w") as f:
         f.write("# Seeded changes: which check reports which\n\nGenerated by selftest/seeded.py check (patch applied to /repo, all 20 checks run, patch undone).\n\n")
         f.write("| seeded change | property | at first contact | now | reporting obligations | what was strengthened |\n|---|---|---|---|---|---|\n")
@@ -122,9 +136,15 @@ def check(sids):
             r = allr[sid]
             f.write("| %s — %s | %s | %s | %s | %s | %s |\n" % (sid, r["title"], r["property"], r.get("first_contact", ""), r["status"],
                     "; ".join("%s: %s" % (p, " ".join(v["obligations"])) for p, v in sorted(r["fired"].items())) or "—", r.get("strengthened", "")))
-    return results
 
 if __name__ == "__main__":
+    if len(sys.argv) >= 2 and sys.argv[1] == "table":
+        rp = os.path.join(SEEDED, "results.json")
+        allr = json.load(open(rp))
+        write_table(allr)
+        json.dump(allr, open(rp, "w"), indent=1, sort_keys=True)
+        print("RESULTS.md rewritten:", len(allr), "seeds")
+        sys.exit(0)
     if len(sys.argv) < 2 or sys.argv[1] not in ("confirm", "check"):
         print(__doc__)
         sys.exit(2)
